@@ -462,6 +462,37 @@ func streamCHist(c *Ctx) {
 			sl = sh[0].SequenceLen()
 		}
 		c.emit("css export", okOr(err, fmt.Sprintf("ok %s seqlen=%d", digList(sharesToBytes(sh)), sl)))
+		// C12: the per-transaction ranges after ANY history (exports and counts between writes) are the
+		// shares holding the transaction's length-prefixed bytes
+		{
+			rs := css.ShareRanges(0)
+			var mstr []string
+			seenTx := map[string]bool{}
+			off := 0
+			starts := make([]int, len(writes))
+			ends := make([]int, len(writes))
+			for wi, t := range writes {
+				starts[wi] = off
+				off += uvarintLen(len(t)) + len(t)
+				ends[wi] = off
+			}
+			for wi := len(writes) - 1; wi >= 0; wi-- { // last writer wins
+				k := txKey(writes[wi])
+				if seenTx[k] {
+					continue
+				}
+				seenTx[k] = true
+				h := sha256.Sum256(writes[wi])
+				v := rs[h]
+				mstr = append(mstr, fmt.Sprintf("%s:%d-%d", dig(writes[wi]), v.Start, v.End))
+				c.oracle()
+				wantS, wantE := shareOf(starts[wi]), shareOf(ends[wi]-1)+1
+				if v.Start != wantS || v.End != wantE {
+					c.violate("C12", "", fmt.Sprintf("after the splitter history [%s] the range of write %d is [%d,%d), the shares holding its bytes are [%d,%d)", strings.TrimSpace(desc), wi, v.Start, v.End, wantS, wantE), "", c.caseOps)
+				}
+			}
+			c.emit("css ranges 0", strings.Join(sortedCopy(mstr), " "))
+		}
 		// oracle C14b: fresh splitter fed only the writes
 		c.oracle()
 		ref := share.NewCompactShareSplitter(ns, 0)
